@@ -70,6 +70,9 @@ structure File where
   actual : FsH
   visible : FsH
   deleted : Bool
+  /-- position in the folder's `deleted_files` dict (insertion = deletion order): the value of the folder's deletion counter when
+  the file was (last) deleted; meaningful only while `deleted` -/
+  delSeq : Nat := 0
 deriving DecidableEq, Repr
 
 structure Folder where
@@ -82,6 +85,10 @@ structure Folder where
   restoreDur : Int
   restoreCd : Int
   files : List File
+  /-- number of deletion events so far (orders `deleted_files`) -/
+  delCtr : Nat := 0
+  /-- place of this folder in the file system's `deleted_folders` (deletion order); meaningful only while `deleted` -/
+  delSeq : Nat := 0
 deriving DecidableEq, Repr
 
 structure Node where
@@ -101,6 +108,8 @@ structure Node where
   it writes at completion — `revealed_to_red` — is not health; the countdown is modelled because it ticks in the same block
   of `apply_timestep` as the whole-node scan and must not disturb it. -/
   redCd : Int := 0
+  /-- number of folder deletions so far (orders `deleted_folders`) -/
+  fdelCtr : Nat := 0
 deriving DecidableEq, Repr
 
 /-! ### software -/
@@ -223,17 +232,34 @@ def File.corrupt (f : File) : File :=
 /-- `File.restore`: a deleted file is only un-deleted; a live CORRUPT file becomes GOOD. -/
 def File.restore (f : File) : File :=
   if f.deleted then { f with deleted := false } else if f.actual = .corrupt then { f with actual := .good } else f
-def File.delete (f : File) : File := { f with deleted := true }
+/-- `Folder.remove_file` / `remove_all_files` reach LIVE files only: the file is flagged deleted and appended to `deleted_files`
+(`s` = its place in that order) -/
+def File.deleteAt (s : Nat) (f : File) : File := if f.deleted then f else { f with deleted := true, delSeq := s }
 
 /-- is there a LIVE file of that name among `fs`? -/
 def hasLive (name : String) (fs : List File) : Bool := fs.any (fun x => x.name = name && !x.deleted)
 
-/-- `Folder.restore_file(x.name)` as it reaches file `x` of a folder whose files are `fs`: `get_file(name, include_deleted=True)`
-returns the LIVE file of that name if there is one — so a deleted file that has a live namesake (the old database file after a
-restore replaced it; a file deleted and re-created) is never reached and STAYS deleted; otherwise `File.restore`. (Among several
-deleted files of one name without a live one the code takes the first in deletion order; the model restores all of them — the one
-remaining inexactness, guarded by `Folder.deadTwins`.) -/
-def File.restoreIn (fs : List File) (x : File) : File := if x.deleted && hasLive x.name fs then x else x.restore
+/-- is `x` the FIRST deleted file of its name in deletion order (`for file in self.deleted_files.values(): if file.name == …`)? -/
+def firstDeleted (fs : List File) (x : File) : Bool :=
+  fs.all (fun y => !(y.name = x.name && y.deleted) || decide (x.delSeq ≤ y.delSeq))
+
+/-- are there two or more deleted files of `x`'s name? -/
+def deadTwin (fs : List File) (x : File) : Bool := decide ((fs.filter (fun y => y.name = x.name && y.deleted)).length ≥ 2)
+
+/-- ONE call `Folder.restore_file(x.name)` as it reaches file `x` of a folder whose files are `fs`: `get_file(name,
+include_deleted=True)` returns the LIVE file of that name if there is one (a deleted file with a live namesake is never reached and
+stays deleted), else the FIRST deleted file of that name in deletion order; the file reached gets `File.restore`. -/
+def File.restoreIn (fs : List File) (x : File) : File :=
+  if x.deleted then (if hasLive x.name fs then x else if firstDeleted fs x then x.restore else x) else x.restore
+
+/-- the completing folder restore calls `restore_file(name)` once per live file and then once per deleted file: a deleted file
+without a live namesake that is first in deletion order is un-deleted by the first call for its name; every further deleted twin
+makes one more call, which now reaches that (live) file again and REPAIRS it if it is CORRUPT. -/
+def File.restoreAll (fs : List File) (x : File) : File :=
+  if x.deleted then
+    (if hasLive x.name fs then x
+     else if firstDeleted fs x then (if deadTwin fs x then x.restore.restore else x.restore) else x)
+  else x.restore
 
 /-- The requests of `FileSystemItemABC`. -/
 inductive ItemReq | scan | checkhash | repair | restore | corrupt
@@ -292,7 +318,7 @@ def Folder.restoreFinish (F : Folder) : Folder :=
 /-- `Folder._restoring_timestep` -/
 def Folder.restoreTick (F : Folder) : Folder :=
   if F.restoreCd ≥ 0 then
-    if F.restoreCd - 1 = 0 then { F with restoreCd := 0, files := F.files.map (File.restoreIn F.files) }.restoreFinish
+    if F.restoreCd - 1 = 0 then { F with restoreCd := 0, files := F.files.map (File.restoreAll F.files) }.restoreFinish
     else { F with restoreCd := F.restoreCd - 1 }
   else F
 
@@ -312,7 +338,20 @@ def Folder.corrupt (F : Folder) : Folder :=
 
 /-- `FileSystem.delete_folder` on a live folder: `folder.delete()` + `remove_all_files()`. -/
 def Folder.delete (F : Folder) : Folder :=
-  { F with deleted := true, files := F.files.map File.delete }
+  { F with deleted := true, files := F.files.map (File.deleteAt (F.delCtr + 1)), delCtr := F.delCtr + 1 }
+/-- …appended to `deleted_folders` at place `s` -/
+def Folder.deleteAt (s : Nat) (F : Folder) : Folder := { F.delete with delSeq := s }
+
+/-- `get_folder(name, include_deleted=True)`: a LIVE folder of that name first, else the first deleted one in deletion order -/
+def hasLiveFolder (name : String) (fo : List Folder) : Bool := fo.any (fun G => G.name = name && !G.deleted)
+def firstDeletedFolder (fo : List Folder) (G : Folder) : Bool :=
+  fo.all (fun H => !(H.name = G.name && H.deleted) || decide (G.delSeq ≤ H.delSeq))
+
+/-- `FileSystem.restore_folder(name)` as it reaches folder `G`: the live folder of that name if there is one (a deleted namesake is
+not reached), else the first deleted one in deletion order -/
+def Folder.restoreIn (fo : List Folder) (G : Folder) : Folder :=
+  if G.deleted then (if hasLiveFolder G.name fo then G else if firstDeletedFolder fo G then G.restore else G) else G.restore
+
 
 /-- folder-level handler (reached only for live folders). -/
 def Folder.handle (F : Folder) : ItemReq → Folder × Bool
@@ -440,6 +479,9 @@ def Node.mapLiveFolder (n : Node) (F : String) (g : Folder → Folder) : Node :=
 /-- live file `f` of folder `G` gets `g` -/
 def Folder.mapLiveFile (G : Folder) (f : String) (g : File → File) : Folder :=
   { G with files := G.files.map (fun x => if x.name = f ∧ x.deleted = false then g x else x) }
+/-- `remove_file` of the live file(s) named `f`: one more deletion event -/
+def Folder.delLive (G : Folder) (f : String) : Folder :=
+  { G.mapLiveFile f (File.deleteAt (G.delCtr + 1)) with delCtr := G.delCtr + 1 }
 def Folder.mapFile (G : Folder) (f : String) (g : File → File) : Folder :=
   { G with files := mapNamed f g G.files }
 
@@ -459,13 +501,14 @@ def Node.apply (n : Node) : Op → Node
   | .appRun name =>
     if n.power = .on then n.mapSws (fun x => if x.name = name ∧ x.isApp = true then x.startUp else x) else n
   | .folder F r => if n.power = .on then n.mapLiveFolder F (fun G => (G.handle r).1) else n
-  | .folderDelete F f => if n.power = .on then n.mapLiveFolder F (fun G => G.mapLiveFile f File.delete) else n
+  | .folderDelete F f => if n.power = .on then n.mapLiveFolder F (fun G => G.delLive f) else n
   | .file F f r =>
     if n.power = .on then n.mapLiveFolder F (fun G => G.mapLiveFile f (fun x => (x.handle r).1)) else n
-  | .fsDeleteFile F f => if n.power = .on then n.mapLiveFolder F (fun G => G.mapLiveFile f File.delete) else n
-  | .fsDeleteFolder F => if n.power = .on ∧ F ≠ "root" then n.mapLiveFolder F Folder.delete else n
+  | .fsDeleteFile F f => if n.power = .on then n.mapLiveFolder F (fun G => G.delLive f) else n
+  | .fsDeleteFolder F =>
+    if n.power = .on ∧ F ≠ "root" then { n.mapLiveFolder F (Folder.deleteAt (n.fdelCtr + 1)) with fdelCtr := n.fdelCtr + 1 } else n
   | .fsRestoreFile F f => if n.power = .on then n.mapLiveFolder F (fun G => G.mapFile f (File.restoreIn G.files)) else n
-  | .fsRestoreFolder F => if n.power = .on then n.mapFolder F Folder.restore else n
+  | .fsRestoreFolder F => if n.power = .on then n.mapFolder F (Folder.restoreIn n.folders) else n
   | .fileSet F f h => n.mapFolder F (fun G => G.mapFile f (fun x => { x with actual := h }))
 
 /-- The `RequestResponse.status` of an operation (`ok` for ticks and Python-API calls). -/
